@@ -73,6 +73,11 @@ pub proof fn lemma_tree_range(i: u16, k: AKey)
 }
 
 impl Writer {
+// (callee available to edits of the scans below; its contract is proved in unit `store`)
+//@extract src/writer.rs | impl<D: Distance> Writer<D> | contains_item
+//@stub
+//@specfile lib/contracts/contains_item.spec
+//@end
 //@extract src/writer.rs | impl<D: Distance> Writer<D> | item_indices
 //@attr #[verifier::exec_allows_no_decreases_clause]
 //@specfile lib/contracts/item_indices.spec
